@@ -54,6 +54,28 @@ def run(ck):
         if len(ev["fv"]) > 0 and (len(ev["atoms"]) > 0 or not ev["atoms_ok"]):
             ck.nontrivial(term_io.term_key(ev["f"]))
         evs.append(ev)
+    # formulas that live in OTHER environments (a `with Environment()` block, a formula kept across reset_env), analysed by
+    # the oracles of the current one: the answers are functions of the formula, not of the ids its nodes carry
+    import pysmt.environment
+    n_foreign = 0
+    for j in ck.rng.sample(terms, min(len(terms), 500 if quick else 5000)):
+        other = pysmt.environment.Environment()
+        try:
+            f = term_io.build_public(j, other)
+        except Exception:
+            continue
+        try:
+            ev = analyse_event(len(terms) + n_foreign, f, env)
+        except term_io.Unrepresentable:
+            continue
+        except Exception as ex:
+            ck.violation({"kind": "analyses", "clause": "raises_on_foreign_formula", "exc": type(ex).__name__, "shape": shape(j)},
+                         {"in": j, "exception": repr(ex)})
+            continue
+        n_foreign += 1
+        ck.count()
+        evs.append(ev)
+    ck.part("formulas_of_other_environments", events=n_foreign)
     verdicts, st = tlc.validate_events("Trace_Pure", evs, constants={"Seed": ck.seed % 1000, "Cap": 20 if quick else 40})
     ck.add_tlc(st)
     byid = {e["id"]: e for e in evs}
